@@ -163,6 +163,9 @@ def probes_for(ex, hist, mstates):
     P.append(["join", {"src": "R"}, "full", [["lt", k, src("R", "k")]]])
     # R14 slice_head on a grouped table
     P.append(["slice_head", 1, 0])
+    P.append(["slice_head", -1, 0])  # negative n / offset
+    P.append(["slice_head", 2, -1])
+    P.append(["rename", [[s, "q"]]])  # rename of a hidden column through its old reference
     # R15 ordering markers outside arrange
     P.append(["mutate", [["z", ["desc", x]]]])
     P.append(["mutate", [["z", ["add", ["nulls_last", x], lit(1)]]]])
